@@ -3,6 +3,7 @@ import Proofs.Lemmas.EmitObl
 import Proofs.Lemmas.EmitOrder
 import Proofs.Lemmas.EmitQuote
 import Proofs.Lemmas.EmitFuse
+import Proofs.Lemmas.EmitCtx
 import Generated.C16CompileNodes
 /-!
 # C16 — ahead-of-time compilation preserves behaviour (compiled = interpreted)
@@ -19,6 +20,12 @@ stated for **any** tables, the obligations re-check the regenerated ones by `dec
 reading of interpreted and raw string literals, `Generator.printf`'s per-line indentation, `%d`, the sign
 of a float): section "scalar payloads" below; tied to the real Generator every run by the scalar probe of
 harness/c16 (every scalar field x every payload class x three indentation depths).
+
+`Model.EmitCtx` models the substitution of a per-FILE value of the generator (`g.namespace`: the file's
+LAST namespace section) for a per-NODE value of the AST (`CallLater.namespace`: the namespace in force where
+the call was written), and what that value means at run time (`CallLater.GetValue`'s lookup): section
+"per-file state" below; tied every run by the ctx probe, the resolve tie and the namespace-section
+features of harness/c16 (files with 2..3 `namespace` sections).
 
 **Partial.** The theorems are about the *structure* of the translation: which fields reach the
 generated program. That each hand-written handler passes the fields it reads to the right
@@ -246,6 +253,156 @@ example : handlersKnown knownSubstitutions [⟨"node.VarIntLe", "emitVarIntLe", 
 example : handlersKnown knownSubstitutions [⟨"node.Array", "emitArray", ["node.NewArrayWithKeys", "node.NewArray"], []⟩] = true := by decide
 
 end fuse
+
+
+/-! ### per-file state of the generator versus per-node state of the AST -/
+
+section ctx
+open Model.EmitCtx
+open Generated.C16CompileNodes (generatorFields parsedFileFields generateAssigns parsedNamespace packageVars ctxReads)
+
+/-- Prints of a per-file value on record: handlers that write `g.namespace` into the generated text,
+with the reason the file-level value cannot matter. Whether it really cannot is decided by the
+namespace-section stream of the differential run (harness/c16/nsfile.go), not here. -/
+def knownCtxEmits : List KnownEmit := [
+  ("node.CallExpression", "emitCallExpression", "namespace"),         -- a call the parser resolved: FunName is the function's full name, the first lookup answers (C16_ctx_resolve_found_first); the node has no namespace of its own
+  ("node.CallStaticMethod", "emitCallStaticMethod", "namespace"),     -- the class was resolved at parse time: className is its full name, found by the first lookup
+  ("node.CallStaticProperty", "emitCallStaticProperty", "namespace")  -- same
+]
+
+/-- **The generator's state is the one on record**: five fields, of which `file` and `namespace` are
+per-file values set by `Generate` from `ParsedFile.Path` / `.Namespace`, and `ParsedFile.Namespace`
+is the parser's namespace after the whole file (`clone.GetNamespace()`: the LAST section); the
+package-level variables of cmd/compile are the registries, the templates, the command's flags and the
+runtime loader — none of them written per node. A new per-file / per-run field (`className`, `uses`,
+`strict`) or package variable (`currentNamespace`) breaks this `decide` by name: what it stands for
+per node has to be asked. -/
+theorem C16_ctx_generator_state :
+    generatorFields = ["buf", "indent", "importAliases", "file", "namespace"] ∧
+    parsedFileFields = ["Path", "Program", "Variables", "Namespace"] ∧
+    generateAssigns = [("file", "pf.Path"), ("namespace", "pf.Namespace")] ∧
+    parsedNamespace = "clone.GetNamespace()" ∧
+    packageVars = ["builtinTemplates", "compileBuild", "compileEntry", "compileOutput", "compilePkg",
+      "dataValueEmitters", "presetTemplates", "runtimeLoader", "specialHandlers"] := by decide +kernel
+
+/-- **Every use a handler makes of a generator field is printer state, a diagnostic, or a print on
+record.** On the regenerated uses of `g.<field>` in the closure of every registered handler: `buf`,
+`indent`, `importAliases` are the printer's; `file` only reaches the message of a compile error; a
+per-file value printed into the generated text is one of `knownCtxEmits`. A handler that starts
+printing `g.namespace` (or binds it, or hands it to a helper) fails here by name. -/
+theorem C16_ctx_emits_known : emitsKnown knownCtxEmits ctxReads = true := by decide +kernel
+
+/-- **No handler takes from the generator what its node carries itself.** A handler whose node type
+has a field named like a per-file field of the generator (`CallLater.namespace`,
+`CallStaticMethodLater.namespace`, `CallStaticPropertyLater.namespace`: the namespace in force WHERE
+the call was written) does not use the generator's (`g.namespace`: the file's LAST namespace). The
+seeded change `C16-calllater-namespace-from-generator` (emitCallLater through a helper that prints
+`g.namespace`) fails here — also if the handler kept a token read of the node's field, which
+`C16_static_drops_allowed` cannot see. -/
+theorem C16_ctx_no_shadowing : noShadowing tables ctxReads = true := by decide +kernel
+
+/-- non-vacuity of the two obligations: the three prints on record are still found, and the three
+node types still carry a namespace of their own -/
+theorem C16_ctx_facts_found :
+    (knownCtxEmits.all fun k => ctxReads.contains ⟨k.2.1, k.1, k.2.2, "emit"⟩) = true ∧
+    (["node.CallLater", "node.CallStaticMethodLater", "node.CallStaticPropertyLater"].all fun ty =>
+      (fieldNames tables ty).contains "namespace") = true := by decide +kernel
+
+/-- **Faithful iff all sites agree with the constant** (any tree, any depth, any attribute type):
+the emitter that writes one per-file value `c` at every site produces the text of the emitter that
+writes each site's own value iff every site of the tree carries `c`. -/
+theorem C16_ctx_const_faithful_iff {α : Type} (c : α) (t : T α) :
+    emitConst c t = emitFaithful t ↔ ∀ a ∈ attrs t, a = c :=
+  Proofs.EmitCtx.const_faithful_iff c t
+
+/-- **The file-level statement.** The parser labels every site with the name of the section it is
+written in; `Generate` knows the name of the LAST section. Writing that name at every site is
+faithful iff every section that contains a site has the last section's name. -/
+theorem C16_ctx_file_faithful_iff {α : Type} (dflt : α) (secs : List (Section α)) :
+    emitConst (lastName dflt secs) (parseFile secs) = emitFaithful (parseFile secs) ↔
+    ∀ s ∈ secs, sites s.body ≠ 0 → s.name = lastName dflt secs :=
+  Proofs.EmitCtx.file_faithful_iff dflt secs
+
+/-- … so for a file whose sections all have one name — a single `namespace` line, the only shape in
+the repository's tests and in the feature alphabet before the section stream — the substitution is
+invisible: why the tests stay green -/
+theorem C16_ctx_one_namespace {α : Type} (dflt n : α) (secs : List (Section α)) (hne : secs ≠ [])
+    (h : ∀ s ∈ secs, s.name = n) :
+    emitConst (lastName dflt secs) (parseFile secs) = emitFaithful (parseFile secs) := by
+  rw [C16_ctx_file_faithful_iff, Proofs.EmitCtx.lastName_of_all dflt n secs hne h]
+  exact fun s hs _ => h s hs
+
+/-- a file without any `namespace` line: one unnamed section, faithful as well -/
+theorem C16_ctx_no_namespace {α : Type} (dflt : α) (body : T α) :
+    emitConst (lastName dflt [⟨dflt, body⟩]) (parseFile [⟨dflt, body⟩]) = emitFaithful (parseFile [⟨dflt, body⟩]) :=
+  C16_ctx_one_namespace dflt dflt _ (by simp) (by simp)
+
+/-- **Negation witness** (the full statement `∀ file, emit-with-constant = emit-faithful` is false):
+two sections `A`, `B`, one call site in `A` — the generated program holds `B` where the parser's
+tree holds `A` -/
+theorem C16_ctx_two_sections_counterexample :
+    ¬ ∀ secs : List (Section String),
+      emitConst (lastName "" secs) (parseFile secs) = emitFaithful (parseFile secs) := by
+  intro h
+  have := (C16_ctx_file_faithful_iff "" [⟨"A", .site "" .nil⟩, ⟨"B", .nil⟩]).mp (h _) ⟨"A", .site "" .nil⟩ (by simp)
+    (by decide)
+  revert this
+  decide
+
+/-- **What the namespace means at run time: the first lookup wins.** A name the VM knows as written
+(a builtin, a fully qualified name) is resolved without the namespace — why the three prints on
+record cannot matter as long as the name they carry is one the first lookup finds -/
+theorem C16_ctx_resolve_found_first (d : Name → Bool) (ns q : Name) (h : d q = true) :
+    resolve d ns q = some q := Proofs.EmitCtx.resolve_found_first d ns q h
+
+/-- **When do two namespaces resolve a call alike?** Iff the name as written is defined, or the two
+namespaces are equal, or the name is defined in neither. -/
+theorem C16_ctx_resolve_eq_iff (d : Name → Bool) (n1 n2 q : Name) :
+    resolve d n1 q = resolve d n2 q ↔
+      d q = true ∨ n1 = n2 ∨ (d (n1 ++ q) = false ∧ d (n2 ++ q) = false) :=
+  Proofs.EmitCtx.resolve_eq_iff d n1 n2 q
+
+/-- **The program-level statement**: the compiled program with the file's last namespace `c` at every
+call site resolves every call as the parser's tree does iff every call site is written in `c`, or
+names a function the first lookup finds, or a function neither namespace defines. A call site in
+another section whose short name exists in its own section or in the last one breaks it. -/
+theorem C16_ctx_same_resolution_iff (d : Name → Bool) (c : Name) (calls : List Call) :
+    sameResolution d c calls ↔
+      ∀ s ∈ calls, d s.q = true ∨ c = s.ns ∨ (d (c ++ s.q) = false ∧ d (s.ns ++ s.q) = false) := by
+  unfold sameResolution
+  constructor
+  · intro h s hs; exact (C16_ctx_resolve_eq_iff d c s.ns s.q).mp (h s hs)
+  · intro h s hs; exact (C16_ctx_resolve_eq_iff d c s.ns s.q).mpr (h s hs)
+
+/-- negation witnesses at run time, the two programs of the seeded change's demonstration: `wrap()`
+written in `App\Text` with a `wrap` in both sections is resolved to `App\Html\wrap` (another function,
+silently); `twice()` written in `Lib\Math`, defined there only, is not found from `Main` -/
+theorem C16_ctx_resolution_counterexamples :
+    let both : Name → Bool := fun n => n == ["App", "Text", "wrap"] || n == ["App", "Html", "wrap"]
+    let one : Name → Bool := fun n => n == ["Lib", "Math", "twice"]
+    resolve both ["App", "Text"] ["wrap"] = some ["App", "Text", "wrap"] ∧
+    resolve both ["App", "Html"] ["wrap"] = some ["App", "Html", "wrap"] ∧
+    resolve one ["Lib", "Math"] ["twice"] = some ["Lib", "Math", "twice"] ∧
+    resolve one ["Main"] ["twice"] = none := by decide
+
+/-! non-vacuity -/
+/-- the seeded handler as the translator describes it -/
+example : noShadowing tables [⟨"emitCallLater", "node.CallLater", "namespace", "emit"⟩] = false := by decide +kernel
+example : emitsKnown knownCtxEmits [⟨"emitCallLater", "node.CallLater", "namespace", "emit"⟩] = false := by decide +kernel
+/-- a value bound to a local or handed to a helper is not accepted either -/
+example : emitsKnown knownCtxEmits [⟨"emitCallExpression", "node.CallExpression", "namespace", "bind"⟩] = false := by decide +kernel
+example : emitsKnown knownCtxEmits [⟨"emitArray", "node.Array", "indent", "write"⟩, ⟨"emitCallLater", "node.CallLater", "file", "diag"⟩] = true := by
+  decide +kernel
+example : noShadowing tables [⟨"emitCallExpression", "node.CallExpression", "namespace", "emit"⟩] = true := by decide +kernel
+example : emitConst "B" (parseFile [⟨"A", .site "" .nil⟩, ⟨"B", .site "" .nil⟩])
+    = .cons (.site "B" .nil) (.cons (.site "B" .nil) .nil) := by decide
+example : emitFaithful (parseFile [⟨"A", .site "" .nil⟩, ⟨"B", .site "" .nil⟩])
+    = .cons (.site "A" .nil) (.cons (.site "B" .nil) .nil) := by decide
+example : lastName "" [⟨"A", (.nil : T String)⟩, ⟨"B", .nil⟩, ⟨"A", .nil⟩] = "A" := by decide
+example : resolve (fun n => n == ["strlen"]) ["A"] ["strlen"] = resolve (fun n => n == ["strlen"]) ["B"] ["strlen"] := by decide
+example : resolve (fun n => n == ["A", "Sub", "q"]) ["A"] ["Sub", "q"] = some ["A", "Sub", "q"] := by decide
+
+end ctx
 
 /-! ### generic theorems -/
 
